@@ -610,6 +610,54 @@ pub fn c04(tier: Tier) -> i32 {
             }
         }
     }
+    // Catch-up after the tower was behind (an outage, a restart): the penalty has been unconfirmed for `quiet` blocks when the
+    // tower falls behind; it is confirmed `later` blocks further on; `after` more blocks follow; the tower gets all of them in
+    // one poll. While it works through the early ones the node, which is ahead, says "already in chain" to a re-submission:
+    // the tracker stays, is recorded as confirmed when the tower gets to that block, and completes 100 blocks later.
+    for quiet in [4u32, 5, 6, 7] {
+        for later in [1u32, 2, 3] {
+            for after in [0u32, 2] {
+                for restart in [false, true] {
+                    let mut sd = seed("S3");
+                    for _ in 0..quiet {
+                        sd.push(Ev::MineP(MineSel::Empty));
+                    }
+                    if restart {
+                        sd.push(Ev::Restart);
+                    }
+                    for _ in 1..later {
+                        sd.push(Ev::Mine(MineSel::Empty));
+                    }
+                    sd.push(Ev::Mine(MineSel::Mempool));
+                    for _ in 0..after {
+                        sd.push(Ev::Mine(MineSel::Empty));
+                    }
+                    sd.push(Ev::Poll);
+                    sd.push(Ev::MineP(MineSel::Empty));
+                    sd.push(Ev::Advance(105));
+                    let mut a = Alphabet::basic();
+                    a.max_adds = 0;
+                    a.max_registers_per_user = 0;
+                    a.mine_dispute = false;
+                    a.mine_mempool = false;
+                    a.mine_empty = false;
+                    grid += 1;
+                    models.push((
+                        TowerModel {
+                            label: format!("C04/grid/catch-up/quiet={quiet}/confirmed-{later}-later/{after}-more/restart={restart}"),
+                            cfg: cfg(3, 1000, 6),
+                            seed: sd,
+                            alphabet: a,
+                            props: vec!["C04"],
+                            probe: false,
+                            forgery: None,
+                        },
+                        0,
+                    ));
+                }
+            }
+        }
+    }
     // the owner renewed (twice) before the tracker completes: the refund goes on top of whatever they hold
     for renewals in [1usize, 2] {
         let mut sd = vec![Ev::Register(1)];
